@@ -343,7 +343,7 @@ func runContained(tw *TraceWriter, sub string, items []json.RawMessage, first in
 			return
 		}
 		msg := errb.String()
-		died := strings.Contains(msg, "fatal error:") || strings.Contains(msg, "goroutine stack exceeds") || strings.Contains(msg, "signal SIGSEGV")
+		died := strings.Contains(msg, "fatal error:") || strings.Contains(msg, "goroutine stack exceeds")
 		if !died {
 			// the harness itself gave up (its own fatal()): machinery failure, not an observation
 			fmt.Fprint(os.Stderr, msg)
@@ -364,7 +364,7 @@ func runContained(tw *TraceWriter, sub string, items []json.RawMessage, first in
 		}
 		tw.Traces++
 		tw.Stats["behaviours_that_killed_the_process"]++
-		tw.Emit(Rec{"ev": "Crash", "op": "Crash", "trace": first + lo, "msg": line, "behaviour": string(items[lo])})
+		tw.Emit(Rec{"ev": "Crash", "op": "Crash", "id": first + lo, "trace": first + lo, "msg": line, "behaviour": string(items[lo])})
 	}
 	for lo := 0; lo < len(items); lo += batch {
 		hi := lo + batch
